@@ -31,6 +31,9 @@
 //	            evalExists, evalSubqueryForValue, evalSubqueryForArray → Gen.existsOutcome / scalarOutcome / arrayOutcome
 //	                                           : (fields records : Nat) → SubOut (the chain of length tests), bodies;
 //	            evalIn / evalAny / evalAll / evalArray → token lists, Gen.inQuantifiers
+//	            evalFieldReference           → Gen.scopeWalkStep : Except ResErr Nat → WalkR, Gen.scopeWalkEnd (the walk over
+//	                                           the records of the enclosing queries: Model/RelNames.lean), body
+//	view.go     View.Select parseWildcard    → Gen.viewStarKeeps, body; header.go TableColumns → Gen.tableColumnKeeps, body
 //
 // Token lists: compound statements are kept as structure (`if(<cond>){`, `}else{`, `for(<header>){`, `switch(<tag>){`,
 // `case(<list>):`, `}`), simple statements as their source text without white space - calls stay visible, nothing
@@ -1823,6 +1826,153 @@ func genSubqueryEval(out *strings.Builder) {
 	out.WriteString(leanList("inQuantifiers", "`evalIn`: [negated form, plain form] as quantifier and operator", []string{quant(neg.Body), quant(neg.Else.(*ast.BlockStmt))}))
 }
 
+// ---------- eval.go evalFieldReference: the walk over the records of the enclosing queries; view.go: wildcards ----------
+
+func genScopeWalk(out *strings.Builder) {
+	ev := parseFile("lib/query/eval.go")
+	fd := findFunc(ev, "", "evalFieldReference")
+	out.WriteString(leanList("evalFieldReferenceBody", "`evalFieldReference` as a whole", stmtTokens(fd.Body.List)))
+	var loop *ast.RangeStmt
+	loopIdx := -1
+	for i, s := range fd.Body.List {
+		if rs, ok := s.(*ast.RangeStmt); ok {
+			if loop != nil {
+				die("%s: evalFieldReference: a second loop", pos(rs))
+			}
+			loop, loopIdx = rs, i
+		}
+	}
+	if loop == nil || canon(loop.X) != "scope.Records" || canon(loop.Key) != "i" || loop.Value != nil {
+		die("%s: evalFieldReference: the loop is not `for i := range scope.Records`", pos(fd))
+	}
+	// idx, err := scope.Records[i].view.Header.SearchIndex(expr); if err == nil {… break} else if err == <sentinel> {return nil, …}
+	var chain *ast.IfStmt
+	sawSearch := false
+	for _, s := range loop.Body.List {
+		if as, ok := s.(*ast.AssignStmt); ok && canon(as) == "idx,err:=scope.Records[i].view.Header.SearchIndex(expr)" {
+			sawSearch = true
+		}
+		if is, ok := s.(*ast.IfStmt); ok && sawSearch && is.Init == nil {
+			chain = is
+		}
+	}
+	if chain == nil {
+		die("%s: evalFieldReference: no test of SearchIndex's error in the loop", pos(loop))
+	}
+	out.WriteString("/-- `evalFieldReference`: what the loop over the records of the enclosing queries does with the outcome of\n    `SearchIndex` in one scope -/\n")
+	out.WriteString("def scopeWalkStep : Except ResErr Nat → WalkR\n")
+	sentinel := map[string]string{"errFieldAmbiguous": "ResErr.ambiguous", "errFieldNotExist": "ResErr.notExist"}
+	ctor := map[string]string{"NewFieldAmbiguousError": "ResErr.ambiguous", "NewFieldNotExistError": "ResErr.notExist"}
+	sawOk := false
+	closed := false
+	for cur := chain; cur != nil; {
+		c := canon(cur.Cond)
+		last := cur.Body.List[len(cur.Body.List)-1]
+		switch {
+		case c == "err==nil":
+			if _, ok := last.(*ast.BranchStmt); !ok || canon(last) != "break" {
+				die("%s: evalFieldReference: the found branch does not end with break", pos(cur))
+			}
+			out.WriteString("  | .ok i => WalkR.found i\n")
+			sawOk = true
+		case strings.HasPrefix(c, "err==") && sentinel[strings.TrimPrefix(c, "err==")] != "":
+			r, ok := last.(*ast.ReturnStmt)
+			if !ok || len(r.Results) != 2 || canon(r.Results[0]) != "nil" {
+				die("%s: evalFieldReference: branch `%s` does not return an error", pos(cur), c)
+			}
+			call, ok := r.Results[1].(*ast.CallExpr)
+			if !ok || ctor[canon(call.Fun)] == "" {
+				die("%s: evalFieldReference: branch `%s` returns %s", pos(cur), c, src(r))
+			}
+			out.WriteString("  | .error " + sentinel[strings.TrimPrefix(c, "err==")] + " => WalkR.fail " + ctor[canon(call.Fun)] + "\n")
+		default:
+			die("%s: evalFieldReference: test `%s` outside the subset", pos(cur), src(cur.Cond))
+		}
+		switch e := cur.Else.(type) {
+		case nil:
+			cur = nil
+		case *ast.IfStmt:
+			cur = e
+		default:
+			die("%s: evalFieldReference: a final else in the error tests", pos(cur))
+			closed = true
+		}
+	}
+	if !sawOk {
+		die("%s: evalFieldReference: no `err == nil` branch", pos(chain))
+	}
+	if !closed {
+		out.WriteString("  | .error _ => WalkR.next\n\n")
+	}
+	// after the loop: if p == nil { return nil, NewFieldNotExistError(expr) }
+	if loopIdx+1 >= len(fd.Body.List) {
+		die("%s: evalFieldReference: nothing after the loop", pos(fd))
+	}
+	after, ok := fd.Body.List[loopIdx+1].(*ast.IfStmt)
+	if !ok || canon(after.Cond) != "p==nil" || len(after.Body.List) != 1 {
+		die("%s: evalFieldReference: the loop is not followed by `if p == nil {…}`", pos(fd))
+	}
+	r, ok := after.Body.List[0].(*ast.ReturnStmt)
+	if !ok || len(r.Results) != 2 {
+		die("%s: evalFieldReference: `if p == nil` does not return", pos(after))
+	}
+	call, ok := r.Results[1].(*ast.CallExpr)
+	if !ok || ctor[canon(call.Fun)] == "" {
+		die("%s: evalFieldReference: after the loop: %s", pos(after), src(r))
+	}
+	out.WriteString("/-- `evalFieldReference`: the error when no scope knew the reference -/\n")
+	out.WriteString("def scopeWalkEnd : ResErr := " + ctor[canon(call.Fun)] + "\n\n")
+
+	// view.go View.Select: parseWildcard; header.go TableColumns
+	vw := parseFile("lib/query/view.go")
+	sel := findFunc(vw, "View", "Select")
+	var pw *ast.FuncLit
+	for _, s := range sel.Body.List {
+		if ds, ok := s.(*ast.DeclStmt); ok {
+			if gd, ok := ds.Decl.(*ast.GenDecl); ok {
+				for _, sp := range gd.Specs {
+					vs := sp.(*ast.ValueSpec)
+					if len(vs.Names) == 1 && vs.Names[0].Name == "parseWildcard" && len(vs.Values) == 1 {
+						pw, _ = vs.Values[0].(*ast.FuncLit)
+					}
+				}
+			}
+		}
+	}
+	if pw == nil {
+		die("%s: View.Select: parseWildcard not found", pos(sel))
+	}
+	out.WriteString(leanList("parseWildcardBody", "`View.Select`: the expansion of `*` and `view.*` into one field per table column", stmtTokens(pw.Body.List)))
+	// the test that drops a column from `view.*`
+	var skip string
+	ast.Inspect(pw.Body, func(n ast.Node) bool {
+		if is, ok := n.(*ast.IfStmt); ok && len(is.Body.List) == 1 && canon(is.Body.List[0]) == "continue" && strings.Contains(canon(is.Cond), "viewName") {
+			skip = canon(is.Cond)
+		}
+		return true
+	})
+	if skip != "cref.View.Literal!=viewName" {
+		die("%s: View.Select: `view.*` drops a column under `%s`, not under `cref.View.Literal != viewName`", pos(pw), skip)
+	}
+	out.WriteString("/-- `View.Select`: a table column belongs to `view.*` when … (exact spelling of the view name) -/\n")
+	out.WriteString("def viewStarKeeps (f : HField) (viewName : String) : Bool := !(f.view != viewName)\n\n")
+	hd := parseFile("lib/query/header.go")
+	tc := findFunc(hd, "Header", "TableColumns")
+	out.WriteString(leanList("tableColumnsBody", "`Header.TableColumns`: the columns `*` stands for", stmtTokens(tc.Body.List)))
+	skip = ""
+	ast.Inspect(tc.Body, func(n ast.Node) bool {
+		if is, ok := n.(*ast.IfStmt); ok && len(is.Body.List) == 1 && canon(is.Body.List[0]) == "continue" {
+			skip = canon(is.Cond)
+		}
+		return true
+	})
+	if skip != "!f.IsFromTable" {
+		die("%s: Header.TableColumns skips a field under `%s`, not under `!f.IsFromTable`", pos(tc), skip)
+	}
+	out.WriteString("/-- `Header.TableColumns`: a header field is a table column when … -/\n")
+	out.WriteString("def tableColumnKeeps (f : HField) : Bool := !(!f.fromTable)\n\n")
+}
+
 func main() {
 	var out strings.Builder
 	out.WriteString("-- GENERATED by /verif/extract/relfacts from lib/query/{header,utils,view,load_view,join,reference_scope,query,inline_tables,comparison,eval}.go — do not edit.\n")
@@ -1838,6 +1988,7 @@ func main() {
 	genLike(&out)
 	genLateral(&out)
 	genSubqueryEval(&out)
+	genScopeWalk(&out)
 	out.WriteString("end Csvq.Gen\n")
 	fmt.Print(out.String())
 }
